@@ -53,7 +53,7 @@ var constructs = [][]string{
 	{"/g {", "} def g"},
 	{"{", "} bind exec"},
 	{"3 dict begin ", " end"},
-	{"1 (a) ", " add"},           // an error after the body
+	{"1 (a) ", " add"},                            // an error after the body
 	{"errordict /typecheck {", "} put 1 (a) add"}, // body as error handler
 }
 
@@ -100,14 +100,14 @@ func genPrograms(size, depth int, atoms []string, constructs [][]string) []strin
 }
 
 var handShaped = []string{
-	"/r {r} def r",                       // tail self-call: legitimate infinite loop
-	"/r {r 1} def r",                     // non-tail self-call through a name
-	"/b {a 1} def /a {b} 0 get def a",    // the same through an alias (a name whose value is an executable name)
-	"/r {1 r} def r",                     // tail self-call that pushes
-	"/r {{r} exec} def r",                // recursion through exec
-	"/r {true {r} if} def r",             // recursion through if
-	"/r {0 1 0 {pop r} for} def r",       // recursion through for
-	"/r {[1] {pop r} forall} def r",      // recursion through forall
+	"/r {r} def r",                                       // tail self-call: legitimate infinite loop
+	"/r {r 1} def r",                                     // non-tail self-call through a name
+	"/b {a 1} def /a {b} 0 get def a",                    // the same through an alias (a name whose value is an executable name)
+	"/r {1 r} def r",                                     // tail self-call that pushes
+	"/r {{r} exec} def r",                                // recursion through exec
+	"/r {true {r} if} def r",                             // recursion through if
+	"/r {0 1 0 {pop r} for} def r",                       // recursion through for
+	"/r {[1] {pop r} forall} def r",                      // recursion through forall
 	"/p 1 array def p 0 {p 0 get exec} put p 0 get exec", // procedure stored in a container reachable from itself
 	"{1} loop", "{1 dict begin} loop", "{} loop", "{dup} loop", "1 {dup} loop", "{count} loop",
 	"{{1} exec} loop", "0 1 1000000 {} for", "0 0 1 {} for", "0 0 1 {pop} for", "1000000 {1} repeat", "1000000 {} repeat",
@@ -345,6 +345,90 @@ func acrossCallsBody(progs []string) func(c *mc.Ctx, item int) mc.Verdict {
 }
 
 // ---------------------------------------------------------------------------
+// the budget is whatever MaxOps says when an operation is about to be executed
+
+// budgetChangeBody: MaxOps set, changed or cleared between Execute calls on one
+// interpreter.  Two pieces with n1 and n2 operations (measured without budget)
+// and budgets b1, b2 in force during the first and the second call: the first
+// call must fail iff b1 > 0 and n1 > b1; otherwise the second must fail iff
+// b2 > 0 and n1+n2 > b2, with the counter at max(b2, n1)+1.
+func budgetChangeBody(progs []string) func(c *mc.Ctx, item int) mc.Verdict {
+	return func(c *mc.Ctx, item int) mc.Verdict {
+		prog := progs[item]
+		cuts := boundaries(prog)
+		if len(cuts) == 0 {
+			return mc.Pass("no-boundary", false)
+		}
+		cut := cuts[c.Choose(len(cuts))]
+		p1, p2 := prog[:cut], prog[cut:]
+		// (a capped probe run first: programs that do not terminate are not used here)
+		probe := postscript.NewInterpreter()
+		probe.MaxOps = harnessCap
+		if err := probe.ExecuteString(prog); err != nil {
+			return mc.Pass("program-fails-or-does-not-terminate", false)
+		}
+		ref := postscript.NewInterpreter()
+		ref.MaxOps = 2 * harnessCap // never reached: the whole program needs at most harnessCap
+		if err := ref.ExecuteString(p1); err != nil {
+			return mc.Pass("first-piece-fails-unbudgeted", false)
+		}
+		n1 := ref.NumOps
+		if err := ref.ExecuteString(p2); err != nil {
+			return mc.Pass("second-piece-fails-unbudgeted", false)
+		}
+		n2 := ref.NumOps - n1
+		want := pscmp.Canon(opTable, ref)
+		// budgets around the interesting points
+		pool := []int{0, 1, n1 - 1, n1, n1 + 1, n1 + n2 - 1, n1 + n2, n1 + n2 + 1}
+		b1, b2 := pool[c.Choose(len(pool))], pool[c.Choose(len(pool))]
+		if b1 < 0 || b2 < 0 {
+			return mc.Pass("n/a", false)
+		}
+		intp := postscript.NewInterpreter()
+		intp.MaxOps = b1
+		err1 := intp.ExecuteString(p1)
+		c.Step()
+		desc := fmt.Sprintf("`%s` then `%s` (%d + %d operations), MaxOps %d for the first call, %d for the second", p1, p2, n1, n2, b1, b2)
+		fail := func(class, detail string) mc.Verdict {
+			v := mc.Fail("C11:budget-changed-between-calls:"+class, desc+": "+detail)
+			v.Render = desc
+			return v
+		}
+		if b1 > 0 && n1 > b1 {
+			if err1 != postscript.ErrExecutionLimitExceeded || intp.NumOps > b1+1 {
+				return fail("first-call", fmt.Sprintf("first call: %s, NumOps %d", errStr(err1), intp.NumOps))
+			}
+			return mc.Pass("first-call-stopped", true)
+		}
+		if err1 != nil {
+			return fail("first-call", "first call failed: "+errStr(err1))
+		}
+		intp.MaxOps = b2
+		err2 := intp.ExecuteString(p2)
+		c.Step()
+		if b2 > 0 && n1+n2 > b2 {
+			if n2 == 0 {
+				return mc.Pass("n/a:empty-second-piece", false)
+			}
+			if err2 != postscript.ErrExecutionLimitExceeded {
+				return fail("not-stopped", fmt.Sprintf("second call: %s, NumOps %d (the budget in force says stop)", errStr(err2), intp.NumOps))
+			}
+			if limit := max(b2, n1) + 1; intp.NumOps > limit {
+				return fail("counted-past-N+1", fmt.Sprintf("NumOps %d after the budget error, at most %d expected", intp.NumOps, limit))
+			}
+			return mc.Pass("second-call-stopped", true)
+		}
+		if err2 != nil {
+			return fail("stopped-without-reason", fmt.Sprintf("second call: %s although the budget in force (%d) allows %d operations", errStr(err2), b2, n1+n2))
+		}
+		if got := pscmp.Canon(opTable, intp); got != want || intp.NumOps != n1+n2 {
+			return fail("state-differs", fmt.Sprintf("final state or NumOps (%d) differs from the unbudgeted run (%d)", intp.NumOps, n1+n2))
+		}
+		return mc.Pass("ran-to-the-end", true)
+	}
+}
+
+// ---------------------------------------------------------------------------
 // runaway growth inside other contexts
 
 // The limits hold wherever the growing code runs: at top level (family above),
@@ -543,6 +627,24 @@ func growthBody(cases []growth) func(c *mc.Ctx, item int) mc.Verdict {
 
 // ---------------------------------------------------------------------------
 
+// startPrefixes: every string of 1..3 bytes over the bytes a scanner treats as
+// white space (and a comment line) that may precede a `%!` which is then not at
+// the start of the input.
+var startPrefixes = func() []string {
+	alpha := []string{" ", "\t", "\n", "\r", "\f", "\x00"}
+	out := []string{"% c\n", "\xef\xbb\xbf", "\x04", "\x1b%-12345X"}
+	for _, a := range alpha {
+		out = append(out, a)
+		for _, b := range alpha {
+			out = append(out, a+b)
+			for _, cc := range alpha {
+				out = append(out, a+b+cc)
+			}
+		}
+	}
+	return out
+}()
+
 func startBody(c *mc.Ctx, item int) mc.Verdict {
 	var input string
 	switch {
@@ -550,8 +652,12 @@ func startBody(c *mc.Ctx, item int) mc.Verdict {
 		input = string([]byte{byte(item >> 8), byte(item)}) + "\n7 "
 	case item == 65536:
 		input = ""
-	default:
+	case item < 65537+256:
 		input = string([]byte{byte(item - 65537)})
+	default:
+		// `%!` behind 1..3 bytes that a scanner would skip: the input does not
+		// BEGIN with %!
+		input = startPrefixes[item-65537-256] + "%!PS\n7 "
 	}
 	fail := func(class, detail string) mc.Verdict {
 		v := mc.Fail("C11:start:"+class, fmt.Sprintf("input %q: %s", input, detail))
@@ -671,7 +777,7 @@ func main() {
 			return []mc.Family{
 				{
 					Name: "budget-cut-points", Items: len(progs), Body: budgetBody(progs), Budget: budget,
-					Rule: fmt.Sprintf("%d programs (every shape with <= %d statements over %d atoms and %d constructs, and with <= %d statements over a reduced alphabet of %d atoms and %d constructs, nested to depth 2, plus %d hand-shaped recursion/handler programs) x EVERY budget N in 1..ops(P)+2 (non-terminating programs: N in 1..64 and powers of two below %d); non-trivial = every case (distinct program x budget)", len(progs), size-1, len(atoms), len(constructs), size, len(smallAtoms), len(smallCons), len(handShaped), harnessCap),
+					Rule:     fmt.Sprintf("%d programs (every shape with <= %d statements over %d atoms and %d constructs, and with <= %d statements over a reduced alphabet of %d atoms and %d constructs, nested to depth 2, plus %d hand-shaped recursion/handler programs) x EVERY budget N in 1..ops(P)+2 (non-terminating programs: N in 1..64 and powers of two below %d); non-trivial = every case (distinct program x budget)", len(progs), size-1, len(atoms), len(constructs), size, len(smallAtoms), len(smallCons), len(handShaped), harnessCap),
 					Describe: func(i int) string { return progs[i] },
 					CrashKey: func(i int) string { return "C11:crash:budget:{" + kindOf(progs[i]) + "}" },
 					// one execution takes microseconds to milliseconds (the largest budget is
@@ -683,8 +789,12 @@ func main() {
 					Rule: fmt.Sprintf("%d terminating programs (shapes with <= 2 statements) x every cut after a token (also inside an unfinished procedure body) x every budget N in 1..ops+2: the two pieces fed in consecutive Execute calls to one interpreter must give the same error identity, the same cumulative NumOps and the same state as the single call with the same budget; non-trivial = every comparison", len(small2)),
 				},
 				{
+					Name: "budget-changed-between-calls", Items: len(small2), Body: budgetChangeBody(small2), Budget: budget,
+					Rule: fmt.Sprintf("%d terminating programs x every cut after a token x MaxOps in force during the first and during the second Execute call, each from {0 (none), 1, n1-1, n1, n1+1, n1+n2-1, n1+n2, n1+n2+1} (n1, n2 = operations of the pieces): the budget that counts is the one in force when an operation is about to run, set before, between or cleared between the calls; non-trivial = every comparison", len(small2)),
+				},
+				{
 					Name: "runaway-growth-in-contexts", Items: len(coreGrowth) * len(growthContexts), Body: contextGrowthBody(coreGrowth), Budget: budget,
-					Rule: fmt.Sprintf("the %d hand-written growth shapes (operand stack, dictionary stack, recursion through names/procedures/aliases/handlers, oversized requests) x %d contexts (inside a user-installed handler for typecheck / undefined / stackunderflow / rangecheck, a handler installed with begin/def, a handler entered from another handler, a forall body, a named procedure, a bound procedure, an extra open dictionary), run with a safety budget of 3,000,000 operations: the run must end before the budget does, with operand stack <= 1100 and dictionary stack <= 20; non-trivial = all", len(coreGrowth), len(growthContexts)),
+					Rule:     fmt.Sprintf("the %d hand-written growth shapes (operand stack, dictionary stack, recursion through names/procedures/aliases/handlers, oversized requests) x %d contexts (inside a user-installed handler for typecheck / undefined / stackunderflow / rangecheck, a handler installed with begin/def, a handler entered from another handler, a forall body, a named procedure, a bound procedure, an extra open dictionary), run with a safety budget of 3,000,000 operations: the run must end before the budget does, with operand stack <= 1100 and dictionary stack <= 20; non-trivial = all", len(coreGrowth), len(growthContexts)),
 					CrashKey: func(i int) string { return "C11:crash:growth-in-context:" + coreGrowth[i%len(coreGrowth)].prog },
 				},
 				{
@@ -701,8 +811,8 @@ func main() {
 					HangSeconds: 60,
 				},
 				{
-					Name: "start-check", Items: 65536 + 1 + 256, Body: startBody, Budget: budget,
-					Rule: "CheckStart=true with every two-byte prefix (65,536) followed by a newline and a token, the empty input and every one-byte input; x 3 continuations on the same interpreter once the check has passed; non-trivial = every case",
+					Name: "start-check", Items: 65536 + 1 + 256 + len(startPrefixes), Body: startBody, Budget: budget,
+					Rule: "CheckStart=true with every two-byte prefix (65,536) followed by a newline and a token, the empty input, every one-byte input, and `%!PS` behind every string of 1..3 white-space bytes, a comment line, a byte-order mark, ^D and a printer job header; x 3 continuations on the same interpreter once the check has passed; non-trivial = every case",
 				},
 			}
 		},
